@@ -72,9 +72,9 @@ class HTTPConnection(ConnectionInterface):
                 f"Attempted to send request to {request.url.origin} on connection to {self._origin}"
             )
 
-        try:
-            with self._request_lock:
-                if self._connection is None:
+        with self._request_lock:
+            if self._connection is None:
+                try:
                     stream = self._connect(request)
 
                     ssl_object = stream.get_extra_info("ssl_object")
@@ -96,9 +96,9 @@ class HTTPConnection(ConnectionInterface):
                             stream=stream,
                             keepalive_expiry=self._keepalive_expiry,
                         )
-        except BaseException as exc:
-            self._connect_failed = True
-            raise exc
+                except BaseException as exc:
+                    self._connect_failed = True
+                    raise exc
 
         return self._connection.handle_request(request)
 
